@@ -11,6 +11,12 @@ add("C06", "exploration",
     "Trusted: the 400-bit fixed-point closed form (cross-checked per chunk against an independent power), Python integers. The 35-digit Decimal context of the library is left untouched.",
     "DESIGN.md §5 C06")
 
+add("C07", "exploration",
+    "exhaustive enumeration of a boundary-rich grid (tick pairs x prices on/next to/between bounds x decimals x amounts) against exact Fraction closed forms",
+    "Every grid point is evaluated on the real get_liquidity / get_amounts / V3CoreLib.new_position / close_position and, for a sub-grid, through UniLpMarket.add_liquidity_by_tick / remove_liquidity in both quote orientations; no-overspend, maximality up to the stated integer slack, sidedness, monotonicity along the sorted price grid, proportionality and closed-form agreement are decided in exact rational arithmetic. Complete over the grid, not over the reals.",
+    "Trusted: the exact closed forms in mc/checks/c07.py. Comparison tolerance 1e-30 relative for Decimal results (35-digit context).",
+    "DESIGN.md §5 C07")
+
 _PENDING = "check not built yet in this round (planned: bounded exhaustive exploration, see DESIGN.md §5); listed here until its check is registered"
 for _i in range(1, 21):
     _p = f"C{_i:02d}"
